@@ -29,6 +29,10 @@ func NewMemoryState[T public_types.PersistentType]() public_types.SharedStateI[T
 }
 
 func (p *memoryState[T]) WithClock(clock clock.Clock) public_types.SharedStateI[T] {
+	// The state is shared by all quota groups of a strategy and a new group sets
+	// the clock again while other transactions read it under the mutex.
+	p.mutex.Lock()
+	defer p.mutex.Unlock()
 	p.clock = clock
 	return p
 }
